@@ -4,7 +4,7 @@ import os, sys, json
 sys.path.insert(0, '/verif')
 from vf import driver as D, kani as K
 units = D.load_units()
-tot = {'units': 0, 'fns': 0, 'pclauses': 0, 'clauses': 0, 'plemmas': 0, 'mutants': 0, 'loc': 0}
+tot = {'units': 0, 'slices': 0, 'fns': 0, 'pclauses': 0, 'clauses': 0, 'plemmas': 0, 'mutants': 0, 'loc': 0}
 rows = []
 for n, u in sorted(units.items()):
     asm = u.assemble()
@@ -13,7 +13,7 @@ for n, u in sorted(units.items()):
     pc = [c for c in info['clauses'] if c['tag'].startswith('P ')]
     pl = u.header.get('plemma', [])
     rows.append((n, ' '.join(u.header['properties']), len(fns), len(info['clauses']), len(pc), len(pl), len(info['mutants']), info['loc']))
-    tot['units'] += 1; tot['fns'] += len(fns); tot['pclauses'] += len(pc); tot['clauses'] += len(info['clauses']); tot['plemmas'] += len(pl)
+    tot['units'] += 1; tot['fns'] += len(fns); tot['slices'] += len([f for f in fns if f.get('slice')]); tot['pclauses'] += len(pc); tot['clauses'] += len(info['clauses']); tot['plemmas'] += len(pl)
     tot['mutants'] += len(info['mutants']); tot['loc'] += info['loc']
 print('unit props fns clauses Pclauses plemmas mutants loc')
 for r in rows:
